@@ -900,6 +900,78 @@ static Str opXchg(const Toks& t)
 	return out;
 }
 
+// reuse <target-hex> <D|S> H<n> .. <k> { <method-hex> <L|C> <=|b|t|f> [bodyspec] P <plan> }*k
+// ONE client HttpRequest object sent k times to the real server; before each send the caller changes the method, the framing
+// (L: setHeader("Transfer-Encoding", "") = a length, C: "chunked") and possibly the body (= keeps what the object has).
+// Every send is an exchange of its own: what the handler saw and what the client got back, per send.
+static Str opReuse(const Toks& t)
+{
+	size_t i = 1;
+	if (t.size() < 4) return "bad-op";
+	Str target = unhex(t[i]);
+	bool viaDic = t[i + 1][0] == 'D';
+	i += 2;
+	Hdrs hs;
+	if (!hdrsOf(t, i, hs) || i >= t.size()) return "bad-op";
+	int k = atoi(t[i++].c_str());
+	if (k < 1 || k > 9) return "bad-op";
+	struct Send { Str method; bool chunked; char put; Str body; Slot* sl; };
+	std::vector<Send> sends;
+	bool bad = false;
+	for (int j = 0; j < k && !bad; j++) {
+		Send s; s.sl = new Slot;
+		sends.push_back(s);
+		Send& c = sends.back();
+		if (i + 2 >= t.size()) { bad = true; break; }
+		c.method = unhex(t[i]);
+		c.chunked = t[i + 1] == "C";
+		c.put = t[i + 2][0];
+		i += 3;
+		if (c.put != '=') {
+			if ((c.put != 'b' && c.put != 't' && c.put != 'f') || i >= t.size() || !bodyOf(t[i++], c.body)) { bad = true; break; }
+		}
+		if (!planOf(t, i, c.sl->plan)) bad = true;
+	}
+	if (bad || i != t.size() || !ensureServer()) {
+		for (size_t j = 0; j < sends.size(); j++) delete sends[j].sl;
+		return bad || i != t.size() ? "bad-op" : "err bind";
+	}
+	String url = String::f("http://127.0.0.1:%d", srv->thePort) + S(target);
+	HttpRequest* q;
+	if (viaDic) {
+		Dic<> d;
+		for (size_t j = 0; j < hs.v.size(); j++) d[S(hs.v[j].first)] = S(hs.v[j].second);
+		q = new HttpRequest("GET", url, d);
+	}
+	else {
+		q = new HttpRequest("GET", url);
+		for (size_t j = 0; j < hs.v.size(); j++) q->setHeader(S(hs.v[j].first), S(hs.v[j].second));
+	}
+	Str out;
+	for (size_t j = 0; j < sends.size(); j++) {
+		Send& c = sends[j];
+		q->setMethod(S(c.method));
+		q->setHeader("Transfer-Encoding", c.chunked ? "chunked" : "");
+		switch (c.put) {
+		case 'b': q->put(ByteArray((const byte*)c.body.data(), (int)c.body.size())); break;
+		case 't': q->put(S(c.body)); break;
+		case 'f': { Str p = makeFile(c.body, "bin"); caseFiles.push_back(p); q->put(File(S(p))); break; }
+		default: break;
+		}
+		Var want;
+		if (c.sl->plan.kind == 'j') want = Json::decode(S(c.sl->plan.body));
+		{ Lock l(gmx); current = c.sl; }
+		HttpResponse res = Http::request(*q);
+		Str co = clientObs(res, srv->thePort, c.sl->plan.kind == 'j' ? &want : 0);
+		Str h;
+		{ Lock l(gmx); h = obsOrDash(*c.sl); current = 0; }
+		out += (j ? " || " : "") + h + " | " + co;
+		retireSlot(c.sl);
+	}
+	delete q;
+	return out;
+}
+
 // cwire <req>          real client -> raw server: the request bytes on the wire
 static Str opCwire(const Toks& t)
 {
@@ -1468,6 +1540,7 @@ static std::string step(const Toks& t)
 {
 	const std::string& op = t[0];
 	if (op == "xchg") return opXchg(t);
+	if (op == "reuse") return opReuse(t);
 	if (op == "cwire") return opCwire(t);
 	if (op == "cread") return opCread(t);
 	if (op == "raw") return opRaw(t);
